@@ -32,6 +32,13 @@ CONTEXTS = {
     "index": "10 Z = Q ( {e} )",
     "on": "10 ON {e} GOTO 20 , 30\n20 END\n30 END",
 }
+# the translation of an expression does not depend on the rest of the program: the same statement next to a DATA line
+# that spells the same constants (with an empty item, which makes the tool rewrite the DATA items in place), and twice
+ENV_CONTEXTS = {
+    "envdata": "1 DATA {lits} , , 7\n10 Z = {e}",
+    "envdatatail": "10 Z = {e}\n20 DATA 7 , {lits} ,\n30 READ Y , X",
+    "envtwice": "10 Z = {e}\n20 Y = {e}",
+}
 NUM_CONTEXTS = ["assign", "if", "ifelse", "ifstmt", "print", "forstart", "forlimit", "forstep", "index", "on"]
 BOOL_CONTEXTS = ["if", "ifelse", "ifstmt", "elseif"]
 STR_CONTEXTS = {"sassign": "10 Z$ = {e}", "sprint": "10 PRINT {e}"}
@@ -152,6 +159,9 @@ def family(tier):
     for e in paren_family():
         for c in NUM_CONTEXTS:
             jobs.append((c, e))
+    for e in list(shapes(0)) + list(shapes(1)) + [e for e in paren_family() if e.startswith("A + ") or e.startswith("- ")]:
+        for c in ENV_CONTEXTS:
+            jobs.append((c, e))
     for e in rel_family():
         for c in BOOL_CONTEXTS:
             jobs.append((c, e))
@@ -172,6 +182,9 @@ def library():
 
 
 def source_for(ctxname, e):
+    if ctxname in ENV_CONTEXTS:
+        lits = [t for t in e.split(" ") if re.fullmatch(r"[0-9.][0-9.]*(E[+-]?[0-9]+)?|&H[0-9A-F]+", t)] or ["2"]
+        return ENV_CONTEXTS[ctxname].format(e=e, lits=" , ".join(dict.fromkeys(lits)))
     tpl = CONTEXTS.get(ctxname) or STR_CONTEXTS[ctxname]
     return tpl.format(e=e)
 
@@ -420,7 +433,7 @@ def run(tier):
     smt.reset_stats()
     jobs = family(tier)
     ctx.bounds.update({"binary_operators_max": 3 if tier == "thorough" else 2, "assign_context_operators_max": 4 if tier == "thorough" else 3,
-                       "contexts": NUM_CONTEXTS + BOOL_CONTEXTS + list(STR_CONTEXTS), "leaves": LEAVES, "bv_input_range": [-6, 6], "step_bound": 60})
+                       "contexts": NUM_CONTEXTS + BOOL_CONTEXTS + list(STR_CONTEXTS) + list(ENV_CONTEXTS), "leaves": LEAVES, "bv_input_range": [-6, 6], "step_bound": 60})
     for rel in ("coco/b09/grammar.py", "coco/b09/parser.py", "coco/b09/elements.py", "coco/b09/visitors.py", "coco/b09/compiler.py"):
         ctx.encode(rel + " (executed: real convert())", repo_source(rel))
     ctx.encode("coco/resources/ecb.b09 (param lists)", tvlib.library_text())
@@ -456,6 +469,7 @@ def run(tier):
     _lib = _tvlib.load_library()
     cctx = ContractCtx(ctx)
     contracts.check_int(cctx, _lib)
+    contracts.check_int(cctx, _lib, alias=True)
     contracts.check_hex_digit(cctx, _lib)
     contracts.check_hex_length(cctx, _lib)
     ctx.bounds["contracts_discharged"] = ["ecb_int = floor (|v| <= 1e5, not within 1e-9 below an integer)", "_ecb_hex_digit = hex digit 0..15", "ecb_hex: number of digits for 0..65535"]
